@@ -44,8 +44,12 @@ func ruleKeyPaths(r *Report) {
 			return "insert"
 		case calleeIs(cc, "(*column.Txn).QueryAt"):
 			return "query"
-		case calleeIs(cc, "(*column.Txn).deleteAt", "(*column.Txn).DeleteAt"):
+		case calleeIs(cc, "(*column.Txn).deleteAt"):
 			return "delete"
+		case calleeIs(cc, "(*column.Txn).DeleteAt"):
+			// refuses offsets outside the transaction's own (possibly stale or filtered) selection:
+			// not the unconditional delete a found key calls for
+			return "delete-if-selected"
 		case calleeIs(cc, "(*commit.Buffer).PutString"):
 			return "put"
 		}
@@ -109,9 +113,9 @@ func ruleKeyPaths(r *Report) {
 		return ok && fr.Struct == "column.columnKey" && fr.Field == "name"
 	}
 	type want struct {
-		name     string
-		onFound  string // event that must happen exactly once when the key is found ("" = none, error returned)
-		onAbsent string // "insert" = insert + key put; "" = none, error returned
+		name      string
+		onFound   string // event that must happen exactly once when the key is found ("" = none, error returned)
+		onAbsent  string // "insert" = insert + key put; "" = none, error returned
 		good, bad string
 	}
 	for _, w := range []want{
@@ -702,4 +706,73 @@ func originOrSelf(f *ssa.Function) *ssa.Function {
 	// closures inside instantiated generics: analyse the corresponding closure of the origin when
 	// it exists, otherwise the instance itself
 	return f
+}
+
+// ruleSetQueued (C01.set): a Set accessor queues its argument as a Put at the cursor and decides
+// nothing from the committed state: writes of the running transaction are only queued, so the
+// stored value is not what the row will hold when this Set takes effect ("skip the write if the
+// value is unchanged" drops the last of Set(B), Set(A) on a row that holds A).
+func ruleSetQueued(r *Report) {
+	L := r.Shared.Lockset()
+	h := r.Rule("C01.set", "def-use + who-may-call", "every Set accessor queues its argument as a Put operation at the cursor and reads no column storage (whether a write is needed cannot be decided from committed state while earlier writes of the same transaction are still queued); the key accessor, which must refuse existing keys, is covered by C12.paths", 12)
+	var names []string
+	fns := map[string]*ssa.Function{}
+	for fn := range r.P.modFunc {
+		if fn.Parent() != nil || fn.Synthetic != "" || fn.Origin() != nil || fn.Name() != "Set" {
+			continue
+		}
+		rn := recvNamed(fn)
+		if rn == nil || !strings.HasPrefix(rn.Obj().Name(), "rw") || rn.Obj().Name() == "rwKey" {
+			continue
+		}
+		names = append(names, fnName(fn))
+		fns[fnName(fn)] = fn
+	}
+	sort.Strings(names)
+	for _, n := range names {
+		fn := fns[n]
+		// queues: some Buffer.Put* with operation Put (PutBool / PutAny included), or a delegation to
+		// another accessor's Set / the record writer with operation Put
+		queues := false
+		deepVisitE(fn, func(ins, _ ssa.Instruction, env *venv) {
+			cc, _, isGo := callCommon(ins)
+			if cc == nil || isGo {
+				return
+			}
+			short := calleeShort(cc)
+			switch {
+			case short == "(*commit.Buffer).PutBool":
+				queues = true
+			case isBufferPut(short) || short == "(*commit.Buffer).PutAny":
+				op, _ := normE(cc.Args[1], env, false)
+				if k, isC := constInt(op); isC && k == opPut {
+					queues = true
+				}
+			case short == "(column.rwRecord).write":
+				if k, isC := constInt(cc.Args[1]); isC && k == opPut {
+					queues = true
+				}
+			default:
+				if sc := cc.StaticCallee(); sc != nil && sc.Name() == "Set" {
+					if rn := recvNamed(sc); rn != nil && strings.HasPrefix(rn.Obj().Name(), "rw") && rn.Obj().Name() != "rwKey" {
+						queues = true
+					}
+				}
+			}
+		})
+		reads := false
+		for _, rc := range L.Roots {
+			if fnName(rc.Fn) != n {
+				continue
+			}
+			for id := range L.ReachFrom(rc) {
+				switch fnName(L.Ctxs[id].Fn) {
+				case "(*column.numericColumn[T]).load", "(*column.columnString).LoadString", "(*column.columnEnum).LoadString", "(column.chunks[T]).chunkAt",
+					"(*column.columnBool).Contains", "(*column.columnBool).Value":
+					reads = true
+				}
+			}
+		}
+		h.Check(queues && !reads, n, r.P.Pos(fn.Pos()), "queues Put(value), reads nothing", "the Set accessor does not queue its argument as a Put operation, or consults the stored value when it is issued (earlier writes of the same transaction are not visible there: the write can be skipped wrongly)")
+	}
 }
